@@ -4,6 +4,7 @@ import (
 	"fmt"
 	"html/template"
 	"runtime"
+	"strings"
 	"sync"
 	"sync/atomic"
 
@@ -94,6 +95,10 @@ func c16Run(c *Ctx, i int, r *gen.R) {
 				if r.Chance(1, 10) {
 					return c04Item(r)
 				}
+				if r.Chance(1, 25) {
+					// a very wide cell: paddings of the other cells of its column exceed any fixed scratch size
+					return gen.StrItem(strings.Repeat(gen.Pick(r, []string{"w", "=", "\u4e16"}), r.Range(81, 400)))
+				}
 				return r.TextItem(c10Fam, 4)
 			}})
 		j := &c16Job{spec: spec, aligns: make([]int, spec.NCols()+1), order: r.Perm(len(formats))}
@@ -105,18 +110,9 @@ func c16Run(c *Ctx, i int, r *gen.R) {
 	}
 	desc := map[string]interface{}{"goroutines": G, "formats": len(formats), "gomaxprocs": runtime.GOMAXPROCS(0)}
 	c.Case = desc
-	// reference: every job built and rendered alone, sequentially
 	type res struct {
 		out string
 		err bool
-	}
-	ref := make([][]res, G)
-	for g, j := range jobs {
-		ref[g] = make([]res, len(formats))
-		for _, fi := range j.order {
-			out, err := formats[fi].f(c16Build(j), g)
-			ref[g][fi] = res{out, err != nil}
-		}
 	}
 	// concurrent phase
 	got := make([][]res, G)
@@ -168,6 +164,16 @@ func c16Run(c *Ctx, i int, r *gen.R) {
 	close(start)
 	wg.Wait()
 	close(stop)
+	// reference: every job built and rendered alone, sequentially - AFTER the concurrent phase, so that
+	// process-wide state which only grows (caches, pools, scratch space) is first touched under concurrency
+	ref := make([][]res, G)
+	for g, j := range jobs {
+		ref[g] = make([]res, len(formats))
+		for _, fi := range j.order {
+			out, err := formats[fi].f(c16Build(j), g)
+			ref[g][fi] = res{out, err != nil}
+		}
+	}
 	c.Rec.Count("goroutines_run", int64(G))
 	c.Rec.Count("concurrent_renders", int64(G*len(formats)))
 	c.Rec.Count("registry_reads_by_background_goroutines", atomic.LoadInt64(&readerOps))
@@ -198,7 +204,7 @@ func init() {
 		Level:  "exploration",
 		Race:   true,
 		Shards: raceShards,
-		Rule: "built with -race; shards run at GOMAXPROCS = all cores, 2, 4, 1. One case = one barrier-released batch of G goroutines (G cycles through 2, 8, 16, 32, 64), each owning a random table spec (as in C10, with alignments and occasional size-declaring items) which it builds and renders in all 12 formats (csv, json, markdown, html twice through one wrapper with caption/generator/context, auto markdown, text under the six built-in decorations, auto utf8-double) in a goroutine-specific order, each render on a freshly built table and wrapper, while 2 background goroutines read RegisteredDecorationNames/Named/auto.ListStyles in a loop. Before the batch the same specs are built and rendered alone to obtain reference bytes; every concurrent output must equal its reference. " +
+		Rule: "built with -race; shards run at GOMAXPROCS = all cores, 2, 4, 1. One case = one barrier-released batch of G goroutines (G cycles through 2, 8, 16, 32, 64), each owning a random table spec (as in C10, with alignments and occasional size-declaring items) which it builds and renders in all 12 formats (csv, json, markdown, html twice through one wrapper with caption/generator/context, auto markdown, text under the six built-in decorations, auto utf8-double) in a goroutine-specific order, each render on a freshly built table and wrapper, while 2 background goroutines read RegisteredDecorationNames/Named/auto.ListStyles in a loop. After the batch the same specs are built and rendered alone to obtain reference bytes (afterwards, so that grow-only process-wide state is first touched concurrently); 1/25 of the cells are 81-400 characters wide; every concurrent output must equal its reference. " +
 			"distinct_nontrivial counts distinct interleaving signatures (global completion order of the renders by goroutine id). The race detector's log is parsed by the parent; every report with a tabular frame is a violation; a fatal runtime error in the child is a violation.",
 		Assumptions: []string{
 			"each goroutine owns its tables and wrappers; sharing one table or wrapper between goroutines is out of scope (documented as unsupported for HTMLTable with a generator context)",
